@@ -433,7 +433,7 @@ def fmt_term(t, depth=0):
         return str(t[1])
     if k == 'tparam':
         return f"{t[1]}"
-    if k in ('param', 'local'):
+    if k in ('param', 'local', 'sym'):
         return t[1]
     if k == 'field':
         b = fmt_term(t[2])
